@@ -17,7 +17,7 @@ ASSUMPTIONS = ['nodes that are only compiled in place into their parent (_compil
                'the numpy interpreter decides whether the case is in the domain (finite); programs whose simplification does not terminate are left to C01']
 
 INT_OPS = ['add', 'mul', 'sub', 'neg', 'abs', 'sign', 'min', 'max', 'mod', 'floordiv', 'cast', 'powi', 'sum', 'product', 'get', 'take', 'inflate', 'insertaxis',
-           'transpose', 'ravel', 'unravel', 'choose', 'stack', 'concat', 'dot', 'loopsum', 'loopcat', 'takediag', 'diagonalize', 'greater', 'less', 'equal', 'not', 'guard']
+           'transpose', 'ravel', 'unravel', 'choose', 'stack', 'concat', 'dot', 'loopsum', 'loopcat', 'takediag', 'diagonalize', 'greater', 'less', 'equal', 'not', 'guard', 'ravelindex', 'normdim', 'searchsorted']
 
 
 def strategy(tier):
